@@ -9,7 +9,7 @@
      depth_ok s e     : the written document nests less than 128 deep (serde_json's recursion limit)
      wire_event s e   : no Some(x) printing as `null` sits in a field that is skipped when None
      exact_event s e  : no Some(x) printing as `null` anywhere (such a value cannot come out of the reader) *)
-From RipV Require Import Base.Prelude Base.Json Base.JsonParse Model.Wire Proofs.WireProofs Gen.EventSchema Gen.Sinks.
+From RipV Require Import Base.Prelude Base.Json Base.JsonParse Model.Wire Proofs.WireProofs Proofs.WireOrderProofs Gen.EventSchema Gen.Sinks.
 
 (* the premise of everything below holds for the schema extracted from the current source *)
 Theorem c03_current_schema_wf : wf_schema gen_schema = true.
@@ -99,6 +99,91 @@ Theorem c03_views_within_log : forall (s : schema) (es : list event) (key : N * 
             In e v -> exists all, map_opt (read_line s) (k_log k) = Some all /\ In e all.
 Proof. exact views_within_log. Qed.
 Print Assumptions c03_views_within_log.
+
+(* ---- the ORDER of the sinks at an emit site, and a log write that can fail (disk full, I/O error) ----
+   An emit site is a list of statements (SLog | SStore | SSend) plus whether the log append's result is checked (`?`);
+   emit_at eo s k e ok runs them for frame e, ok = the log write succeeds; run_faulty folds it over a history of
+   (frame, fate of its log write); logged steps = the frames whose log write succeeded.
+   The order of every emit site of today's source is regenerated on every run (ss_order in Gen/Sinks.v):
+   every continuity append path is [SLog; SStore; SSend] with the log append checked, under the seq mutex (wf_sinks_order). *)
+Theorem c03_current_sinks_order : gen_ok_sinks && wf_sinks_order gen_sinks = true.
+Proof. exact gen_sinks_order_ok. Qed.
+Print Assumptions c03_current_sinks_order.
+
+(* an append whose log write fails leaves no trace — in the sidecar, in the buffer, on the channel — for EVERY order that
+   starts with the checked log append *)
+Theorem c03_failed_append_leaves_no_trace : forall (eo : emit_order) (s : schema) (k : sinks) (e : event),
+  log_first eo = true -> emit_at eo s k e false = k.
+Proof. exact emit_at_failed. Qed.
+Print Assumptions c03_failed_append_leaves_no_trace.
+
+(* after ANY history of appends with failing and succeeding log writes the four views agree, and the live subscriber
+   received exactly the frames whose log write succeeded (for the order read from continuities.rs) *)
+Theorem c03_views_agree_under_log_faults : forall (eo : emit_order) (s : schema) (steps : list (event * bool)) (key : N * str),
+  wf_order eo = true -> wf_schema s = true -> all_ok s (logged steps) ->
+  let k := run_faulty eo s steps in
+  view_log s key k = Some (map (canon_event s) (view_live s key k))
+  /\ view_sidecar s key k = Some (map (canon_event s) (view_live s key k))
+  /\ view_snapshot s key k = Some (map (canon_event s) (view_live s key k)).
+Proof. exact views_agree_faulty. Qed.
+Print Assumptions c03_views_agree_under_log_faults.
+
+Theorem c03_live_is_logged : forall (eo : emit_order) (s : schema) (steps : list (event * bool)),
+  wf_order eo = true -> k_live (run_faulty eo s steps) = logged steps.
+Proof. exact live_is_logged. Qed.
+Print Assumptions c03_live_is_logged.
+
+(* nothing appears in a sidecar, a snapshot or a live stream that is not in the log — for EVERY emit order whose first
+   statement is the checked log append (whatever follows it) and every history of failing and succeeding log writes *)
+Theorem c03_views_within_log_under_log_faults : forall (eo : emit_order) (s : schema) (steps : list (event * bool)) (key : N * str) (e : event),
+  log_first eo = true -> wf_schema s = true -> all_ok s (logged steps) ->
+  let k := run_faulty eo s steps in
+  forall v, (view_sidecar s key k = Some v \/ view_snapshot s key k = Some v \/ v = map (canon_event s) (view_live s key k)) ->
+            In e v -> exists all, map_opt (read_line s) (k_log k) = Some all /\ In e all.
+Proof. exact views_within_log_any_order. Qed.
+Print Assumptions c03_views_within_log_under_log_faults.
+
+(* the order is necessary: with the sidecar append in FRONT of the checked log append (the seeded change C03-4) a failed
+   append leaves a frame in the sidecar that is not in the log *)
+Theorem c03_sidecar_first_refuted :
+  exists eo s steps key e,
+    eo_log_checked eo = true /\ order_complete eo = true /\ wf_schema s = true /\ all_ok s (map fst steps)
+    /\ (exists v, view_sidecar s key (run_faulty eo s steps) = Some v /\ In e v)
+    /\ k_log (run_faulty eo s steps) = [].
+Proof. exact sidecar_first_refuted. Qed.
+Print Assumptions c03_sidecar_first_refuted.
+
+(* session.rs emit_event and TaskEmitter::emit AS WRITTEN (buffer, channel, then a log append whose error is dropped:
+   the order the extractor finds for them): when the log write fails the frame is live and in the snapshot but not in
+   the log.  Replayed on the real SessionEngine (events.jsonl on /dev/full): known finding W3. *)
+Theorem c03_unchecked_log_last_refuted :
+  exists eo s steps key e,
+    order_complete eo = true /\ wf_schema s = true /\ all_ok s (map fst steps)
+    /\ In e (view_live s key (run_faulty eo s steps))
+    /\ (exists v, view_snapshot s key (run_faulty eo s steps) = Some v /\ In e v)
+    /\ k_log (run_faulty eo s steps) = [].
+Proof. exact unchecked_log_last_refuted. Qed.
+Print Assumptions c03_unchecked_log_last_refuted.
+
+(* ---- the buffer a snapshot is written from is never shortened ----
+   emit_capped cap = emit on a buffer that drops its oldest frame once it holds cap frames (the seeded change C03-6);
+   below the cap it is emit; the source has no shortening call on the history buffers (regenerated on every run) *)
+Theorem c03_current_buffer_use : gen_ok_buffer && wf_buffer_use gen_buffer_use = true.
+Proof. exact gen_buffer_use_ok. Qed.
+Print Assumptions c03_current_buffer_use.
+
+Theorem c03_capped_buffer_below_cap : forall (s : schema) (k : sinks) (e : event) (cap : nat),
+  (length (k_buffer k) < cap)%nat -> emit_capped cap s k e = emit s k e.
+Proof. exact emit_capped_below. Qed.
+Print Assumptions c03_capped_buffer_below_cap.
+
+Theorem c03_capped_buffer_refuted :
+  exists cap s es key,
+    wf_schema s = true /\ all_ok s es
+    /\ view_log s key (fold_left (emit_capped cap s) es sinks0) = Some (map (canon_event s) (view_live s key (fold_left (emit_capped cap s) es sinks0)))
+    /\ view_snapshot s key (fold_left (emit_capped cap s) es sinks0) <> Some (map (canon_event s) (view_live s key (fold_left (emit_capped cap s) es sinks0))).
+Proof. exact capped_buffer_refuted. Qed.
+Print Assumptions c03_capped_buffer_refuted.
 
 (* ---- the sidecar is a cache that can be lost while the store lives ----
    hstep: HEmit e (an append path) | HLose key (one stream's sidecar disappears) | HLoseAll (the sidecar directory
@@ -195,3 +280,12 @@ Proof. exact demo_loss_history_ok. Qed.
 
 Example c03_code_replay_check_wf : wf_replay_check rc_code = true.
 Proof. exact rc_code_wf. Qed.
+
+(* the order read from continuities.rs meets the hypotheses; a history with two failed log writes (one of them retried) *)
+Example c03_code_order_wf : wf_order eo_cont = true /\ log_first eo_cont = true /\ order_complete eo_cont = true.
+Proof. exact eo_cont_wf. Qed.
+
+Example c03_demo_fault_history_ok :
+  wf_schema demo_schema = true /\ all_ok demo_schema (logged demo_fault_history)
+  /\ length (logged demo_fault_history) = 2%nat /\ length demo_fault_history = 4%nat.
+Proof. exact demo_fault_history_ok. Qed.
